@@ -174,6 +174,8 @@ Ltac f_leaf :=
   try match goal with H : (?a =? ?b) = _ |- _ => discriminate H end;
   repeat match goal with
   | H : context [match b_cs ?s with BDisconnecting => _ | _ => _ end] |- _ => destruct (b_cs s) eqn:?
+  | H : context [match b_cs ?s with BConnecting => _ | _ => _ end] |- _ => destruct (b_cs s) eqn:?
+  | |- context [match b_cs ?s with BConnecting => _ | _ => _ end] => destruct (b_cs s) eqn:?
   end;
   repeat match goal with
   | H : context [if ?b then ?s else set_now ?t ?s] |- _ => destruct b
